@@ -39,6 +39,18 @@ func (c03) Gen(seed uint64, run int, tier string) *Plan {
 			// A: variant 0 exact, 1 trailing bytes, 2 truncated; B agent; C callback; D seed; L[0] = amount
 			v := []int{0, 0, 1, 1, 1, 2}[r.Intn(6)]
 			p.Actions = append(p.Actions, Action{Kind: "callback", A: v, B: d, C: r.Intn(len(world.Callbacks)), D: r.Intn(1 << 30), L: []int{1 + r.Intn(7)}})
+			if r.Intn(12) == 0 {
+				// a process that reports its output in several packages under the one request id
+				oi := 0
+				for i, cb := range world.Callbacks {
+					if cb.Name == "output" {
+						oi = i
+					}
+				}
+				for k := 2 + r.Intn(3); k > 0; k-- {
+					p.Actions = append(p.Actions, Action{Kind: "callback", A: r.Intn(2), B: d, C: oi, D: 2 * r.Intn(1<<29), L: []int{1 + r.Intn(7)}})
+				}
+			}
 		case x < 62:
 			p.Actions = append(p.Actions, Action{Kind: "register", D: r.Intn(1 << 30), A: r.Intn(4)})
 		case x < 70:
@@ -80,6 +92,7 @@ type c03State struct {
 	taskN int
 	ids   map[*world.Demon]string // id each demon registered with
 	objID map[any]string          // session object -> id first seen
+	openRID map[*world.Demon]uint32 // request id of the task whose (non-final) callbacks are still coming in
 }
 
 func (st *c03State) outstandingRID(d *world.Demon) uint32 {
@@ -102,7 +115,7 @@ func (c03) Exec(p *Plan, dir string) *Result {
 		res.finish(w)
 		return res
 	}
-	st := &c03State{w: w, res: res, wit: w.Operators[0], ids: map[*world.Demon]string{}, objID: map[any]string{}}
+	st := &c03State{w: w, res: res, wit: w.Operators[0], ids: map[*world.Demon]string{}, objID: map[any]string{}, openRID: map[*world.Demon]uint32{}}
 	for _, d := range w.Demons {
 		st.ids[d] = d.NameID()
 	}
@@ -350,7 +363,24 @@ func (st *c03State) callback(a Action) {
 			body = body[:len(body)-extra]
 		}
 	}
-	rid := st.outstandingRID(d)
+	// a task may report in several packages under its one request id (output chunks of a running
+	// process): a callback that is not the final one of its task leaves the id open, and the next
+	// non-final callback of that agent is sent under the same id half of the time
+	// (only the plain output package: that it leaves its task open is the one case Command.c and
+	// the teamserver's PROC_CREATE handler spell out)
+	var rid uint32
+	chunk := cb.Name == "output" && variant != 2
+	if open, ok := st.openRID[d]; ok && chunk && a.D%2 == 0 {
+		rid = open
+		res.Probe("further-output-under-one-request-id")
+	} else {
+		rid = st.outstandingRID(d)
+	}
+	if chunk {
+		st.openRID[d] = rid
+	} else {
+		delete(st.openRID, d)
+	}
 	st.wit.Pump()
 	mark := len(st.wit.Events)
 	snapBefore := TakeSnap(w, SnapOpts{})
